@@ -236,7 +236,10 @@ Definition books : Type := list N * list N.
 Record sstate := { a_bk : books; a_live : list (N * N * N); a_seen : list (N * option N);
                    a_warned : bool; a_ptrs : list (N * N) }.
 Definition memN (x : N) (l : list N) : bool := existsb (N.eqb x) l.
-Definition szof (sizes : list N) (id : N) : option N := nth_error sizes (N.to_nat id).
+(* the bound test comes first so that an id the allocator never handed out (the harness prints 0xffffffff for a release of unknown
+   memory) is never turned into a unary number *)
+Definition szof (sizes : list N) (id : N) : option N :=
+  if id <? N.of_nat (length sizes) then nth_error sizes (N.to_nat id) else None.
 (* the size passed down with a block: the size it was obtained with; blocks above the cached bound carry no size in the
    cache, there the caller's size (dealloc) or 0 (clear) is passed on *)
 Definition size_ok (a f caller : N) : bool := (f =? a) || ((cached_bound <? a) && (f =? caller)).
